@@ -17,6 +17,7 @@ pub fn run(seed: u64, ntraces: usize) {
         let all: Vec<VMAddress> = [owner.clone(), collector.clone()].into_iter().chain(users.iter().cloned()).collect();
         for u in &all { w.add_user(u, 1_000_000); for tk in &toks { w.add_esdt(u, tk, 1_000_000); } }
         let gs = sc_addr(0x12);
+        let collector = if t % 6 == 5 { VMAddress::zero() } else { collector };       // a service deployed without a collector: nobody may collect
         let st = w.deploy(&owner, &gs, b"gas", vec![collector.to_vec()]);
         let init = json!({"self": hx(gs.as_bytes()), "owner": hx(owner.as_bytes()), "collector": hx(collector.as_bytes()),
             "tracked": all.iter().map(|u| hx(u.as_bytes())).chain(std::iter::once(hx(gs.as_bytes()))).collect::<Vec<_>>(),
@@ -57,7 +58,7 @@ pub fn run(seed: u64, ntraces: usize) {
                 j["pay"] = pj(egld, &esdt); (j, st)
             } else if k < 9 {
                 // collectFees
-                let caller = if r.chance(2, 3) { cur_collector.clone() } else { anyone.clone() };
+                let caller = if cur_collector == VMAddress::zero() { if r.chance(1, 2) { owner.clone() } else { anyone.clone() } } else if r.chance(2, 3) { cur_collector.clone() } else { anyone.clone() };
                 let receiver = if r.chance(1, 8) { VMAddress::zero() } else { r.pick(&all).clone() };
                 let n = r.below(4) as usize;
                 let bal = |w: &World, tk: &Vec<u8>| -> u64 { let acc = w.r.blockchain_mock.state.accounts.get(&gs).unwrap();
@@ -77,7 +78,7 @@ pub fn run(seed: u64, ntraces: usize) {
                 (json!({"op": "collect", "receiver": hx(receiver.as_bytes()), "tokens": tokens.iter().map(|t| hx(t)).collect::<Vec<_>>(),
                         "amounts": amts2.iter().map(|a| a.to_string()).collect::<Vec<_>>(), "caller_": hx(caller.as_bytes())}), st)
             } else if k < 11 {
-                let caller = if r.chance(2, 3) { cur_collector.clone() } else { anyone.clone() };
+                let caller = if cur_collector == VMAddress::zero() { if r.chance(1, 2) { owner.clone() } else { anyone.clone() } } else if r.chance(2, 3) { cur_collector.clone() } else { anyone.clone() };
                 let receiver = if r.chance(1, 8) { VMAddress::zero() } else { r.pick(&all).clone() };
                 let tk = match r.below(3) { 0 => b"EGLD".to_vec(), _ => r.pick(&toks).clone() };
                 let acc = w.r.blockchain_mock.state.accounts.get(&gs).unwrap();
@@ -87,8 +88,8 @@ pub fn run(seed: u64, ntraces: usize) {
                 let st = w.tx(&caller, &gs, "refund", vec![txh.clone(), big(li), receiver.to_vec(), tk.clone(), big(a)], &bn(0), &[]);
                 (json!({"op": "refund", "txhash": hx(&txh), "logidx": li.to_string(), "receiver": hx(receiver.as_bytes()), "token": hx(&tk), "amount": a.to_string(), "caller_": hx(caller.as_bytes())}), st)
             } else {
-                let caller = match r.below(3) { 0 => cur_collector.clone(), 1 => owner.clone(), _ => anyone.clone() };
-                let a = r.pick(&all).clone();
+                let caller = match r.below(3) { 0 if cur_collector != VMAddress::zero() => cur_collector.clone(), 0 | 1 => owner.clone(), _ => anyone.clone() };
+                let a = if r.chance(1, 5) { VMAddress::zero() } else { r.pick(&all).clone() };
                 let st = w.tx(&caller, &gs, "setGasCollector", vec![a.to_vec()], &bn(0), &[]);
                 if st.res.result_status == 0 { cur_collector = a.clone(); }
                 (json!({"op": "setCollector", "a": hx(a.as_bytes()), "caller_": hx(caller.as_bytes())}), st)
